@@ -386,6 +386,11 @@ def undo_regions(text, regions):
 def build_unit(template_path, repo, out_path):
     """Generate the Verus unit. Returns a dict describing the extraction."""
     tpl = open(template_path).read()
+    # //@include <path relative to the template's directory>
+    def inc(m):
+        return open(os.path.join(os.path.dirname(template_path), m.group(1).strip())).read()
+    for _ in range(4):
+        tpl = re.sub(r"^[ \t]*//@include[ \t]+(\S+)[ \t]*$", inc, tpl, flags=re.M)
     segs = parse_template(tpl)
     out = []
     regions = {}
